@@ -97,7 +97,6 @@ theorem cryptYescryptCore_err {D : Digests} {p s : Bytes} {e : Errno} (h : crypt
 theorem cryptScrypt_err {D : Digests} {p s : Bytes} {e : Errno} (h : cryptScrypt D p s = .error e) : errOk e := by
   unfold cryptScrypt at h
   split at h; · cases h; simp [errOk]
-  split at h; · cases h; simp [errOk]
   exact cryptYescryptCore_err h
 
 theorem cryptGost_err {D : Digests} {p s : Bytes} {e : Errno} (h : cryptGost D p s = .error e) : errOk e := by
